@@ -23,12 +23,12 @@ def syntax_stages(replay, tier, seed):
     return [
         # (a) all token strings, grown token by token, not extended past errTok+1
         fam_stage("tok", replay, "FamsTokThorough" if big else "FamsTokQuick",
-                  ["Emit", "RoundTripOK", "ErrTokInRange"] + ([] if big else ["PrefixViable"])),
+                  ["Emit", "RoundTripOK", "ErrTokInRange", "UnspecKnown"] + ([] if big else ["PrefixViable"])),
         # (b) all character strings inside the wrapper contexts
-        fam_stage("chr", replay, "FamsChrThorough" if big else "FamsChrQuick", ["Emit", "LexSane"]),
+        fam_stage("chr", replay, "FamsChrThorough" if big else "FamsChrQuick", ["Emit", "LexSane", "UnspecKnown"]),
         # (c) simulation of long grammar-derived token strings
         fam_stage("sim", replay, "FamsSim", ["Emit", "RoundTripOK", "ErrTokInRange"],
-                  simulate="num=%d" % (4000 if big else 150), depth=26, timeout=180 if big else 20),
+                  simulate="num=%d" % (4000 if big else 60), depth=26, timeout=240 if big else 90),
     ]
 
 
